@@ -365,9 +365,13 @@ func writeEvidence(prop, tier string, seed int, cfg *PropCfg, runs []*HarnessRun
 		"property_id": prop, "tier": tier, "seed": seed, "level": "model_checking", "coverage": cov,
 		"assumptions": cfg.Assumptions, "wall_s": wall.Seconds(), "violations": violations,
 	}
-	os.MkdirAll(filepath.Join(verifRoot, "evidence"), 0o755)
+	evDir := filepath.Join(verifRoot, "evidence")
+	if d := os.Getenv("VERIF_EVIDENCE_DIR"); d != "" {
+		evDir = d // evaluation of seeded changes: keep the registered evidence untouched
+	}
+	os.MkdirAll(evDir, 0o755)
 	b, _ := json.MarshalIndent(ev, "", " ")
-	os.WriteFile(filepath.Join(verifRoot, "evidence", prop+".json"), b, 0o644)
+	os.WriteFile(filepath.Join(evDir, prop+".json"), b, 0o644)
 }
 
 var evSampleOK, evSampleDiv int
